@@ -35,9 +35,9 @@ type Sym struct {
 // Act is the abstract semantic action of a rule: the value of the lhs is a
 // function of the referenced rhs values (see Eval and render).
 type Act struct {
-	Refs []int `json:"refs,omitempty"` // 1-based rhs positions used
-	Coef []int `json:"coef,omitempty"` // coefficients (int-valued lhs)
-	C0   int   `json:"c0,omitempty"`
+	Refs []int  `json:"refs,omitempty"` // 1-based rhs positions used
+	Coef []int  `json:"coef,omitempty"` // coefficients (int-valued lhs)
+	C0   int    `json:"c0,omitempty"`
 	Raw  string `json:"raw,omitempty"` // extra raw text inserted into the action (comments, braces); no $ inside
 }
 
